@@ -41,7 +41,7 @@ def main():
         def find_record(k2, n2, q2):
             ds = []
             def tr_match(n):
-                targs = [a.get('type', {}).get('qualType', '') for a in n.get('inner', []) if a.get('kind') == 'TemplateArgument']
+                targs = [a.get('type', {}).get('qualType', '') or (str(a['value']) if 'value' in a else '') for a in n.get('inner', []) if a.get('kind') == 'TemplateArgument']
                 want = q2[q2.index('<') + 1:q2.rindex('>')] if '<' in q2 else ''
                 got = ', '.join(cxx2c.strip_ns(a) for a in targs)
                 if (not want) or (not targs) or want == got: return True
@@ -75,7 +75,7 @@ def main():
                     if (want is None or c.get('name') in want) and c.get('name') not in cfg.get('skip_functions', []): roots.append(c)
                 if k == 'FunctionTemplateDecl':
                     for x in c.get('inner', []):
-                        if x.get('kind') == 'CXXMethodDecl' and tr.has_body(x) and any(a.get('kind') == 'TemplateArgument' for a in x.get('inner', [])):
+                        if x.get('kind') in ('CXXMethodDecl', 'CXXConstructorDecl') and tr.has_body(x) and any(a.get('kind') == 'TemplateArgument' for a in x.get('inner', [])):
                             targs = [a.get('type', {}).get('qualType', '') for a in x.get('inner', []) if a.get('kind') == 'TemplateArgument']
                             if any('(lambda at ' + repo in a for a in targs):
                                 continue   # instantiated on a library-internal lambda: emitted when its caller is
@@ -86,8 +86,9 @@ def main():
             def walkf(n):
                 if isinstance(n, dict):
                     if n.get('kind') == 'FunctionDecl' and n.get('name') in ff and tr.has_body(n) and any(a.get('kind') == 'TemplateArgument' for a in n.get('inner', [])):
-                        if n['id'] not in seen_ids:
-                            seen_ids.add(n['id']); roots.append(n)
+                        sig = (n.get('name'), n.get('type', {}).get('qualType'), tuple(a.get('type', {}).get('qualType', '') for a in n.get('inner', []) if a.get('kind') == 'TemplateArgument'))
+                        if n['id'] not in seen_ids and sig not in seen_ids:
+                            seen_ids.add(n['id']); seen_ids.add(sig); roots.append(n)
                     for c in n.get('inner', []): walkf(c)
             for d in docs: walkf(d)
         tr.run(roots, survey='--survey' in sys.argv)
@@ -98,6 +99,25 @@ def main():
     except cxx2c.Unsupported as e:
         print(f'ERROR extraction: unit {unit}: {e}'); sys.exit(2)
     text = tr.output(cfg.get('includes', ['prims.h']))
+    if cfg.get('layout_records'):
+        # layout facts of the REAL C++ records (size, alignment, field offsets as clang lays them out): used by
+        # obligations about placement new into raw storage
+        cmd = pre + ['clang++', '-std=' + cfg.get('std', 'c++11'), '-I' + repo + '/include', '-fsyntax-only', '-Wno-everything', '-fgnuc-version=5.4.0',
+                     '-Xclang', '-fdump-record-layouts', os.path.join(here, cfg['tu'])]
+        r = subprocess.run(cmd, stdout=subprocess.PIPE, stderr=subprocess.PIPE, text=True)
+        if r.returncode != 0:
+            print('ERROR extraction: clang -fdump-record-layouts failed'); sys.exit(2)
+        import re as _re
+        facts = []
+        for q, cn in cfg['layout_records'].items():
+            m = _re.search(r'\n\s+0 \| (?:class|struct) (?:eventpp::)?' + _re.escape(q) + r'\n(.*?)\[sizeof=(\d+), dsize=\d+, align=(\d+)', r.stdout, _re.S)
+            if not m:
+                print(f'ERROR extraction: no record layout for {q}'); sys.exit(2)
+            facts.append(f'#define FACT_SIZEOF_{cn} {m.group(2)}'); facts.append(f'#define FACT_ALIGNOF_{cn} {m.group(3)}')
+            for fm in _re.finditer(r'\n\s+(\d+) \|   (?!  )(.*?) (\w+)(?=\n)', '\n' + m.group(1)):
+                facts.append(f'#define FACT_OFFSETOF_{cn}_{fm.group(3)} {fm.group(1)}')
+        text = text.replace('#include "prims_post.h"', '/* layout facts of the real records (clang -fdump-record-layouts) */\n' + '\n'.join(facts) + '\n#include "prims_post.h"', 1)
+
     with open(os.path.join(outdir, unit + '.c'), 'w') as f: f.write(text)
     meta = dict(unit=unit, functions=[dict(name=f[0], proto=f[1], src=f[3], text=f[2]) for f in tr.funcs], extern_protos=tr.externs,
                 externs=sorted(tr.externs), loops=tr.loop_keys, notes=tr.notes, seconds=round(time.time() - t0, 2))
